@@ -44,6 +44,18 @@ func exec(op string) vlib.Res {
 		return execDS(f)
 	case "wild verify":
 		return execWild(f)
+	case "ad hitchase":
+		return execAdHitChase(f)
+	case "signers find":
+		return execSigners(f)
+	case "wild answer":
+		return execWildAnswer(f)
+	case "supds check":
+		return execSupDS(f)
+	case "filter zone":
+		return execFilterZone(f)
+	case "rootds check":
+		return execRootDS(f)
 	case "synth check":
 		return execSynth(f)
 	case "deleg nsec":
@@ -93,7 +105,22 @@ func gen(r *vlib.R, n int, tier string, emit func(string)) {
 	}
 	rest := n - n*9/20
 	for rest > 0 {
-		switch k := r.Intn(23); {
+		switch k := r.Intn(29); {
+		case k == 23 || k == 24:
+			emit(genAdHitChase(r))
+		case k == 25 || k == 26:
+			emit(genSigners(r))
+		case k == 27:
+			emit(genWildAnswer(r))
+		case k == 28:
+			switch r.Intn(4) {
+			case 0:
+				emit(genSupDS(r))
+			case 1:
+				emit(genRootDS(r))
+			default:
+				emit(genFilterZone(r))
+			}
 		case k == 20 || k == 21:
 			emit(genSynth(r))
 		case k == 22:
@@ -200,6 +227,7 @@ func shapeFacts(out map[string]any) {
 	out["shape_root_ds_from_anchors_authority"] = false
 	out["shape_bare_denials_go_through_authority"] = false
 	out["shape_key_fetch_is_validated"] = false
+	out["shape_wildcard_proof_from_filtered_authority"] = false
 	out["shape_cd_fetch_only_before_explicit_validation"] = false
 	fset := token.NewFileSet()
 	file, err := parser.ParseFile(fset, filepath.Join(repoDir(), "middleware/resolver/resolver.go"), nil, 0)
@@ -291,6 +319,30 @@ func shapeFacts(out map[string]any) {
 			})
 			first := posOfCall(fd.Body, "findRRSIGSigners")
 			out["shape_anchor_gate_"+name] = gate != 0 && first != 0 && gate < first
+			// (4) answer(): the authority section is cut down to the signer zone (`resp.Ns = …FilterRRsToZone(resp.Ns, signer)`)
+			//     before the wildcard no-closer-match check reads NSEC records from it
+			if name == "answer" {
+				var filt token.Pos
+				ast.Inspect(fd.Body, func(x ast.Node) bool {
+					as, isAs := x.(*ast.AssignStmt)
+					if !isAs || len(as.Lhs) != 1 || len(as.Rhs) != 1 || filt != 0 {
+						return true
+					}
+					l, isSel := as.Lhs[0].(*ast.SelectorExpr)
+					c, isCall := as.Rhs[0].(*ast.CallExpr)
+					if !isSel || !isCall || l.Sel.Name != "Ns" || len(c.Args) != 2 {
+						return true
+					}
+					if f, ok := c.Fun.(*ast.SelectorExpr); ok && f.Sel.Name == "FilterRRsToZone" {
+						if a, ok := c.Args[1].(*ast.Ident); ok && a.Name == "signer" {
+							filt = as.Pos()
+						}
+					}
+					return true
+				})
+				w := posOfCall(fd.Body, "VerifyWildcardAnswerForZoneWithWork")
+				out["shape_wildcard_proof_from_filtered_authority"] = filt != 0 && w != 0 && filt < w
+			}
 			// (3) a response served by the root gets its DS set from the trust anchors before anything is judged
 			if name != "validateDelegation" {
 				p := posOfCall(fd.Body, "rootParentDS")
